@@ -527,6 +527,10 @@ func unpackDataNsec(msg []byte, off int) ([]uint16, int, error) {
 // typeBitMapLen is a helper function which computes the "maximum" length of
 // a the NSEC Type BitMap field.
 func typeBitMapLen(bitmap []uint16) int {
+	if len(bitmap) == 0 {
+		// packDataNsec writes nothing for an empty bitmap, not an empty window.
+		return 0
+	}
 	var l int
 	var lastwindow, lastlength uint16
 	for _, t := range bitmap {
